@@ -279,6 +279,30 @@ func init() {
 			}
 			return total
 		},
+		// first index of one byte (strings.Index / Cut / IndexByte reach it)
+		"internal/bytealg.IndexByteString": func(in *Interp, fn *ssa.Function, a []Value) Value {
+			x, y := a[0].(*Str), a[1].(*sym.Term)
+			st := in.St
+			if x.kind == sConc && y.IsConst() {
+				return st.Int(int64(strings.IndexByte(x.conc, byte(y.I))))
+			}
+			v := in.toView(x)
+			n := in.needMax(v, "bytealg.IndexByteString")
+			res := st.Int(-1)
+			for i := n - 1; i >= 0; i-- {
+				ii := st.Int(int64(i))
+				res = st.Ite(st.And(st.Lt(ii, v.length), st.Eq(v.at(ii), y)), ii, res)
+			}
+			return res
+		},
+		"internal/bytealg.IndexString": func(in *Interp, fn *ssa.Function, a []Value) Value {
+			x, y := a[0].(*Str), a[1].(*Str)
+			if x.kind == sConc && y.kind == sConc {
+				return in.St.Int(int64(strings.Index(x.conc, y.conc)))
+			}
+			in.fail("bytealg.IndexString on symbolic strings")
+			return nil
+		},
 		"strings.IndexByte": func(in *Interp, fn *ssa.Function, a []Value) Value {
 			x, y := a[0].(*Str), a[1].(*sym.Term)
 			if x.kind == sConc && y.IsConst() {
